@@ -333,6 +333,8 @@ def check_call(prog: Program, res: Result) -> None:
 
 
 def check(prog: Program, res: Result) -> None:
+    from . import _edges
+    _edges.check_edge_order(prog, res, "C05-edges")
     check_nan(prog, res)
     check_sum(prog, res)
     check_range(prog, res)
